@@ -397,6 +397,10 @@ Lemma b_emitted_main_save r pre sd :
   r_cookies r = pre ++ save_cookies sd -> emitted_main r = Some (s_main sd).
 Proof. intros Hc. unfold emitted_main. rewrite Hc, b_payload_of_app, b_po_save_main. reflexivity. Qed.
 
+Lemma b_emitted_main_save0 r sd :
+  r_cookies r = save_cookies sd -> emitted_main r = Some (s_main sd).
+Proof. intros Hc. apply (b_emitted_main_save r [] sd). rewrite Hc. reflexivity. Qed.
+
 Lemma b_emitted_main_nil r : r_cookies r = [] -> emitted_main r = None.
 Proof. intros Hc. unfold emitted_main. rewrite Hc. reflexivity. Qed.
 
@@ -915,7 +919,7 @@ End Ladder.
 
 Lemma b_emits_auth_cleared r sd : r_cookies r = save_cookies (b_cleared sd) -> emits_auth r = false.
 Proof.
-  intros Hc. unfold emits_auth. rewrite (b_emitted_main_save r [] (b_cleared sd)) by exact Hc. reflexivity.
+  intros Hc. unfold emits_auth. rewrite (b_emitted_main_save0 r (b_cleared sd)) by exact Hc. reflexivity.
 Qed.
 
 Lemma b_gated_not_callback E cfg rq : gated E cfg rq = true -> is_callback cfg rq = false.
@@ -935,8 +939,104 @@ Lemma b_establishes_same E cfg now rq r sd :
   establishes E cfg now rq r = false.
 Proof.
   intros Hpos Hsd Hc. unfold establishes, main_rewritten, new_token.
-  rewrite (b_emitted_main_save r [] _ Hc), (b_emitted_id_save E r _ Hc).
+  rewrite (b_emitted_main_save0 r _ Hc), (b_emitted_id_save E r _ Hc).
   rewrite b_main_set_refresh, b_get_access_set_refresh. subst sd.
   rewrite b_payload_eqb_refl. unfold session_token, NCm. rewrite b_tval_eqb_refl.
   cbn [negb orb]. rewrite andb_false_r, andb_false_r. reflexivity.
 Qed.
+
+(* ------------------------------------------------------------------ the forwarded header list *)
+
+Lemma b_lookup_insert_same c v l : lookup c (insert_hdr c v l) = Some v.
+Proof.
+  induction l as [|[d w] l IH]; cbn [insert_hdr lookup]; [rewrite N.eqb_refl; reflexivity|].
+  destruct (N.eqb c d) eqn:Ecd; cbn [lookup]; [rewrite N.eqb_refl; reflexivity|].
+  destruct (N.ltb c d); cbn [lookup]; [rewrite N.eqb_refl; reflexivity|].
+  rewrite Ecd. exact IH.
+Qed.
+
+Lemma b_lookup_insert_other c c' v l : c' <> c -> lookup c' (insert_hdr c v l) = lookup c' l.
+Proof.
+  intros Hne. induction l as [|[d w] l IH]; cbn [insert_hdr lookup].
+  - destruct (N.eqb_spec c' c); [contradiction|reflexivity].
+  - destruct (N.eqb_spec c d) as [->|Hcd]; cbn [lookup].
+    + destruct (N.eqb_spec c' d); [contradiction|reflexivity].
+    + destruct (N.ltb c d); cbn [lookup].
+      * destruct (N.eqb_spec c' c); [contradiction|reflexivity].
+      * destruct (N.eqb c' d); [reflexivity|exact IH].
+Qed.
+
+Lemma b_In_insert c v l x : In x (insert_hdr c v l) -> x = (c, v) \/ In x l.
+Proof.
+  induction l as [|[d w] l IH]; cbn [insert_hdr].
+  - intros [<-|[]]. left. reflexivity.
+  - destruct (N.eqb c d).
+    + intros [<-|H]; [left; reflexivity|right; right; exact H].
+    + destruct (N.ltb c d).
+      * intros [<-|H]; [left; reflexivity|right; exact H].
+      * intros [<-|H]; [right; left; reflexivity|].
+        destruct (IH H) as [->|H']; [left; reflexivity|right; right; exact H'].
+Qed.
+
+Lemma b_In_insert_new c v l : In (c, v) (insert_hdr c v l).
+Proof.
+  induction l as [|[d w] l IH]; cbn [insert_hdr]; [left; reflexivity|].
+  destruct (N.eqb c d); [left; reflexivity|]. destruct (N.ltb c d); [left; reflexivity|right; exact IH].
+Qed.
+
+Lemma b_forallb_insert (P : N * hval -> bool) c v l :
+  P (c, v) = true -> forallb P l = true -> forallb P (insert_hdr c v l) = true.
+Proof.
+  intros Hc Hl. apply forallb_forall. intros x Hin.
+  destruct (b_In_insert _ _ _ _ Hin) as [->|H]; [exact Hc|].
+  rewrite forallb_forall in Hl. apply Hl, H.
+Qed.
+
+Section Templates.
+  Variable E : env.
+  Variable cfg : config.
+
+  Definition b_tmpl_step (s : istr) (acc : list (N * hval)) (n : N) : list (N * hval) :=
+    match tmpl E n s with
+    | Some v => insert_hdr (100 + n) (HStr v) acc
+    | None => acc
+    end.
+
+  Lemma b_template_headers_eq t l :
+    template_headers E cfg t l =
+    match t with
+    | TTok s => if ti_claims (tok E s) then fold_left (b_tmpl_step s) (c_templates cfg) l else l
+    | _ => l
+    end.
+  Proof.
+    unfold template_headers. destruct (c_templates cfg) as [|n ts]; [|reflexivity].
+    destruct t as [|s|]; [reflexivity| |reflexivity]. destruct (ti_claims (tok E s)); reflexivity.
+  Qed.
+
+  Lemma b_forallb_templates (P : N * hval -> bool) t l :
+    (forall s n v, t = TTok s -> In n (c_templates cfg) -> tmpl E n s = Some v -> P (100 + n, HStr v) = true) ->
+    forallb P l = true -> forallb P (template_headers E cfg t l) = true.
+  Proof.
+    intros Hn Hl. rewrite b_template_headers_eq. destruct t as [|s|]; try exact Hl.
+    destruct (ti_claims (tok E s)); [|exact Hl].
+    specialize (Hn s). revert l Hl Hn. generalize (c_templates cfg) as ts.
+    induction ts as [|n ts IH]; intros l Hl Hn; [exact Hl|].
+    cbn [fold_left]. apply IH.
+    - unfold b_tmpl_step. destruct (tmpl E n s) as [v|] eqn:Et; [|exact Hl].
+      apply b_forallb_insert; [|exact Hl]. apply (Hn n v eq_refl); [left; reflexivity|exact Et].
+    - intros n' v' Heq Hin. apply Hn; [exact Heq|right; exact Hin].
+  Qed.
+
+  Lemma b_lookup_templates c t l : c < 100 -> lookup c (template_headers E cfg t l) = lookup c l.
+  Proof.
+    intros Hc. rewrite b_template_headers_eq. destruct t as [|s|]; try reflexivity.
+    destruct (ti_claims (tok E s)); [|reflexivity].
+    revert l. generalize (c_templates cfg) as ts.
+    induction ts as [|n ts IH]; intros l; [reflexivity|].
+    cbn [fold_left]. rewrite IH. unfold b_tmpl_step. destruct (tmpl E n s); [|reflexivity].
+    apply b_lookup_insert_other. lia.
+  Qed.
+End Templates.
+
+Lemma b_forallb_ext {A} (f g : A -> bool) l : (forall x, f x = g x) -> forallb f l = forallb g l.
+Proof. intros H. induction l as [|a l IH]; cbn; [reflexivity|]. rewrite H, IH. reflexivity. Qed.
